@@ -494,6 +494,11 @@ func (pe *PolicyEngine) insertAdminNetworkPolicy(anp *apisv1a.AdminNetworkPolicy
 	}
 	pe.adminNetpolsMap[anp.Name] = true
 	pe.sortedAdminNetpols = append(pe.sortedAdminNetpols, (*k8s.AdminNetworkPolicy)(anp))
+	// keep the list ordered by priority, so that queries following a direct InsertObject see the right precedence
+	// (conflicting priorities are reported by sortAdminNetpolsByPriority)
+	sort.SliceStable(pe.sortedAdminNetpols, func(i, j int) bool {
+		return pe.sortedAdminNetpols[i].Spec.Priority < pe.sortedAdminNetpols[j].Spec.Priority
+	})
 	return nil
 }
 
